@@ -83,7 +83,7 @@ type Worker struct {
 	curFrame  *frame
 	failStack string
 	sigs      []sigRec
-	cborBlobs map[*value]*cborRec
+	cborBlobs map[string]*cborRec
 	range256  int
 
 	intrinsicHits map[string]int
